@@ -10,7 +10,7 @@ def run(ctx):
                 "inclusive-shift values, and checks conservation/inverse/rejection laws; each (state, event) is replayed on a real BinArchive and "
                 "the full observable state compared; random histories recorded from mila are validated step by step. "
                 "Non-trivial = event on a non-empty archive that carries at least one annotation.")
-    binsm_common.run(ctx, "c03", ["release"] if ctx.quick() else ["release", "checked"])
+    binsm_common.run(ctx, "c03", ["release", "checked"])
 
 
 replay = binsm_common.replay
